@@ -454,3 +454,24 @@ package lfs
 //@   props C13
 //@   pure
 //@   ensures result != nil && err_pointerscan(result)
+
+// C05 (index half): every entry `git diff-index` reports - whatever its status
+// letter - is recorded under its destination id, and that id is handed on to
+// the pointer check; none is skipped.
+//@ func revListIndex$1
+//@   props C05
+//@   requires @inv scanner != nil && indexMap != nil
+//@   loop 1 iter chsent(revs) == iter(chsent(revs)) + 1
+//@   at call (*lfs.indexFileMap).Add:1 assert arg0__ == indexMap && scanner.next != nil && arg1__ == scanner.next.DstSha && arg2__ != nil && arg2__.SrcName == scanner.next.SrcName
+//@   at call (*lfs.indexFileMap).Add:1 assert len(scanner.next.DstName) > 0 ==> arg2__.Name == scanner.next.DstName
+//@   at call (*lfs.indexFileMap).Add:1 assert len(scanner.next.DstName) == 0 ==> arg2__.Name == scanner.next.SrcName
+//@   at send revs assert mapval__ == scanner.next.DstSha
+//@ func (*DiffIndexScanner).Scan
+//@   assumed
+//@   props C05
+//@   modifies fresh, fields s
+//@   ensures result ==> s.next != nil
+//@ func (*indexFileMap).Add
+//@   assumed
+//@   props C05
+//@   modifies fresh, map m.nameMap, map m.nameShaPairs
